@@ -174,6 +174,18 @@ def run_oracle(ck, n_int, n_named):
             rt.guard(ck, oracle_fwd, ck, 1, gen.MODES5[n % 5], 1, (np.array(w.dec_lo), np.array(w.dec_hi)), x, tol=1e-9, named=name)
         for (a, b) in [(L + 3, 40), (41, L + 6)]:
             rt.guard(ck, oracle_fwd, ck, 2, rng.choice(gen.MODES5), 1, (np.array(w.dec_lo), np.array(w.dec_hi)), gen.float_tensor(ck.nprng, (1, 1, a, b)), tol=1e-9, named=name)
+    # sizes above every blocking / tiling threshold (gen.scale_shapes_*): every padding mode, one to three levels, wavelets of
+    # several lengths and a per-axis pair of different lengths
+    wl = ['db2', 'bior2.4', 'sym5', 'db7', 'db4', 'haar']
+    for k, shp in enumerate(gen.scale_shapes_1d(ck.tier)):
+        w = pywt.Wavelet(wl[k % len(wl)])
+        for m in gen.MODES5:
+            rt.guard(ck, oracle_fwd, ck, 1, m, 1 + (k + m) % 3, (np.array(w.dec_lo), np.array(w.dec_hi)), gen.float_tensor(ck.nprng, shp), tol=1e-9, named=w.name)
+    for k, shp in enumerate(gen.scale_shapes_2d(ck.tier)):
+        w = pywt.Wavelet(wl[k % len(wl)]); w2 = pywt.Wavelet(wl[(k + 3) % len(wl)])
+        for m in gen.MODES5:
+            filt = (np.array(w.dec_lo), np.array(w.dec_hi)) if (k + m) % 3 else (np.array(w.dec_lo), np.array(w.dec_hi), np.array(w2.dec_lo), np.array(w2.dec_hi))
+            rt.guard(ck, oracle_fwd, ck, 2, m, 1 + (k + m) % 3, filt, gen.float_tensor(ck.nprng, shp), tol=1e-9, named=(w.name if (k + m) % 3 else None))
     names = named_wavelets(rng, n_named)
     for name in names:
         w = pywt.Wavelet(name)
